@@ -654,6 +654,16 @@ func genCodecEncT(g *Gen, w *bufio.Writer, t *fTables) {
 			h[d.TypeIndex] = wire[d.TypeIndex]
 			fmt.Fprintf(w, "enc %s hdr=%s %s %s\n", fam, hexs(h), m.Name, fieldsStr(man, opt))
 		}
+		if d != nil && g.Intn(12) == 0 && len(d.Decode) > 1 {
+			// the header view names another known type than the body attached (ill-formed; an encoder that fails or panics on it
+			// must still leave the caller's buffer and the message alone)
+			h := append([]byte{}, wire[:d.HeaderLen]...)
+			other := d.Decode[g.Intn(len(d.Decode))].Const
+			if byte(other) != h[d.TypeIndex] {
+				h[d.TypeIndex] = byte(other)
+				fmt.Fprintf(w, "enc %s hdr=%s %s %s\n", fam, hexs(h), m.Name, fieldsStr(man, opt))
+			}
+		}
 		if d != nil && g.Intn(6) == 0 {
 			// a stored Len that does not match the contents of a buffer-backed element (contents assigned directly, Len stale): not
 			// well formed in C02's sense; the encoders write what is stored, and must leave the message as it is
